@@ -8,7 +8,12 @@ RULE = ('a multiset of atoms with integer counts (elements, isotopes, D/T/H[1], 
         'orders and groupings - flat string, grouped string, {atom: count} dict, nested sequence, arithmetic (f+g, n*f, f+=g, 0*g) - '
         'so that all renderings have exactly equal .atoms; every rendering\'s Hill form is checked for composition, order, '
         'idempotence and equality with the others, and the Hill order written as a string is parsed and compared with its own '
-        'Hill form. distinct = distinct atom sets of the multisets; non-trivial = at least two atoms')
+        'Hill form. counts: formulas built by random formula programs (leaves atom / string / dict / nested sequence, '
+        'operators +, n*, +=, copy) whose counts are python and numpy floats (float64, float32) with 1..17 significant digits over '
+        '1e-12..1e12, Fractions or Decimals (where the constructors accept them): every variable\'s Hill form must have exactly '
+        'its .atoms, be ordered and idempotent; a dict, a flat and a grouped sequence built from exactly those count objects '
+        'must have an equal Hill form, and the Hill order written with positional counts must equal its own Hill form. '
+        'distinct = distinct atom sets of the multisets (and (flavour, atom set) of the count programs); non-trivial = at least two atoms')
 SHARDS = {'quick': 8, 'thorough': 16}
 TIMEOUT = {'quick': 900, 'thorough': 7200}
 TECHNIQUE = ('runtime monitoring: metamorphic relations between the Hill forms of independently rendered equal compositions at the '
@@ -24,7 +29,8 @@ LEVEL_NOTE = ('Trusted: the rendering code in this module and pvmon/gen/programs
               'equal to the multiset before the library is involved), pvmon/ref/masses.py for element symbols. The order among '
               'charge states of one nuclide, and between an element and its isotopes, is not prescribed by the property: only '
               'canonicity is demanded there.')
-ASSUMPTIONS = ['"alphabetical by symbol" is read on the printed symbol: D and T sort under their own letters, H[1] under H',
+ASSUMPTIONS = ['Fraction and Decimal counts are judged only when the constructors and .atoms accept them (they do on the pinned tree through dict and sequence input)',
+               '"alphabetical by symbol" is read on the printed symbol: D and T sort under their own letters, H[1] under H',
                'the order among different charge states of one nuclide, and between a natural element and its isotopes, is free; canonicity must still hold',
                'f.hill.atoms == f.atoms is demanded as equality of dictionaries, zero-count atoms included',
                'the Hill string of a multiset with a zero-count atom is not formed (the grammar cannot write a zero count)']
@@ -143,7 +149,9 @@ def setup(ctx):
         for name in ('feature.multi-charge', 'feature.multi-isotope', 'feature.digit-boundary', 'feature.zero-count',
                      'feature.D-or-T', 'feature.H[1]', 'feature.C', 'feature.H', 'feature.C-or-H-lookalike',
                      'rendering.str-flat', 'rendering.str-grouped', 'rendering.dict', 'rendering.seq', 'rendering.arith',
-                     'hill-string.parsed'):
+                     'hill-string.parsed', 'hill-string.float-counts', 'counts.flavour.float', 'counts.flavour.fraction',
+                     'counts.flavour.decimal', 'counts.below-1e-6', 'counts.above-1e6', 'counts.more-than-6-decimals',
+                     'counts.numpy', 'counts.Fraction', 'counts.Decimal'):
             ctx.require(name, 1, 'workload feature demanded by the property quantifier')
 
 
@@ -271,7 +279,160 @@ def check_multiset(ctx, case):
         ctx.distinct_case(tuple(sorted(want)))
 
 
-CHECKS = {'multiset': check_multiset}
+# ---------------------------------------------------------------- counts of every magnitude and type
+def _positional(c):
+    """Positional decimal text that reads back as exactly the float value of c."""
+    from decimal import Decimal
+    if isinstance(c, int) and not isinstance(c, bool):
+        return str(c)
+    text = format(Decimal(repr(float(c))), 'f')
+    return text
+
+
+def check_counts(ctx, case):
+    """The Hill form must not touch counts: formulas with float / numpy / Fraction / Decimal counts of every
+    magnitude (built by a random program) against their own .atoms, exactly; canonicity against re-renderings of
+    exactly those count objects; the Hill order written with positional counts against its own Hill form."""
+    import random
+    from periodictable import formulas
+    from ..atoms import key as akey, render
+    from ..gen.programs import run_program, loads
+    T = _s['tables'][case.get('table', 'public')]
+    flavour = case['flavour']
+    exotic = flavour in ('fraction', 'decimal')
+    ctx.count('counts.flavour.' + flavour)
+    try:
+        V = run_program(loads(case['prog']), T)
+        seen, forms = set(), []
+        for f in V:
+            if id(f) not in seen:
+                seen.add(id(f))
+                forms.append((f, dict(f.atoms)))
+    except HillContractBroken as exc:
+        _report(ctx, 'contract', 'counts program: _convert_to_hill_notation postcondition violated: %s'
+                % _contract_text(exc), flavour=flavour)
+        return
+    except Exception:
+        if exotic:
+            # Fraction / Decimal counts are judged only where the constructors and .atoms accept them
+            ctx.count('counts.exotic-not-accepted')
+            return
+        raise
+    problems = {}
+
+    def problem(kind, msg, **detail):
+        if kind not in problems:
+            problems[kind] = (msg, detail)
+
+    last = None
+    for n, (f, fa) in enumerate(forms):
+        try:
+            h = f.hill
+            ha = h.atoms
+        except HillContractBroken as exc:
+            problem('contract', 'variable %d: _convert_to_hill_notation postcondition violated: %s'
+                    % (n, _contract_text(exc)), flavour=flavour)
+            continue
+        ctx.evaluated(what='hill-atoms')
+        if not (ha == fa) or set(ha) != set(fa):
+            bad = [(a, fa.get(a), ha.get(a)) for a in fa if not (a in ha and ha[a] == fa[a])][:3]
+            problem('hill-atoms', 'formula %r: hill.atoms differs from atoms: %s'
+                    % (f.structure, '; '.join('%s is %r, in the Hill form %r' % b for b in bad) or
+                       'atom sets %r vs %r' % (sorted(map(str, ha)), sorted(map(str, fa)))), flavour=flavour)
+        ctx.evaluated(what='hill-order')
+        keys = [akey(a) for _, a in _leaves(h.structure)]
+        op = order_problem(keys)
+        if op:
+            problem('hill-order', 'Hill form %r is not in Hill order: %s' % (h.structure, op), flavour=flavour,
+                    order=[list(k) for k in keys])
+        ctx.evaluated(what='hill-idempotent')
+        try:
+            hh = h.hill
+            if not (hh == h) or not (h == hh):
+                problem('hill-idempotent', 'hill.hill %r != hill %r' % (hh.structure, h.structure), flavour=flavour,
+                        equal_as_tuples=_deep_tuple(hh.structure) == _deep_tuple(h.structure))
+        except HillContractBroken as exc:
+            problem('contract', 'hill of hill: postcondition violated: %s' % _contract_text(exc), flavour=flavour)
+        last = (f, fa, h)
+        for a, c in fa.items():
+            v = abs(float(c))
+            if 0 < v < 1e-6:
+                ctx.count('counts.below-1e-6')
+            if v >= 1e6:
+                ctx.count('counts.above-1e6')
+            if v and round(v, 6) != v:
+                ctx.count('counts.more-than-6-decimals')
+            if type(c).__module__ == 'numpy':
+                ctx.count('counts.numpy')
+            if type(c).__name__ in ('Fraction', 'Decimal'):
+                ctx.count('counts.' + type(c).__name__)
+    if last is not None and last[1]:
+        f, fa, h = last
+        rng = random.Random(case.get('seed', 0))
+        items = list(fa.items())
+        rng.shuffle(items)
+        # canonicity on exactly these count objects: a dict and a flat sequence in other orders
+        others = []
+        try:
+            others.append(('dict', formulas.formula(dict(items))))
+            others.append(('seq', formulas.formula([(c, a) for a, c in reversed(items)])))
+            if len(items) >= 2:
+                j = rng.randint(1, len(items) - 1)
+                others.append(('seq-grouped', formulas.formula([(1, [(c, a) for a, c in items[j:]])] +
+                                                               [(c, a) for a, c in items[:j]])))
+            others = [(k, g, g.atoms) for k, g in others]
+        except HillContractBroken as exc:
+            problem('contract', 're-rendering: postcondition violated: %s' % _contract_text(exc), flavour=flavour)
+            others = []
+        except Exception:
+            if not exotic:
+                raise
+            ctx.count('counts.exotic-not-accepted')
+            others = []
+        for kind, g, ga in others:
+            ctx.evaluated(what='hill-canonical')
+            if not (ga == fa):
+                if not exotic:
+                    problem('rendering-atoms', 're-rendering %s of atoms %r has atoms %r' % (kind, fa, ga), rendering=kind)
+                continue
+            try:
+                gh = g.hill
+            except HillContractBroken as exc:
+                problem('contract', 're-rendering %s: postcondition violated: %s' % (kind, _contract_text(exc)))
+                continue
+            if not (gh == h) or not (h == gh):
+                problem('hill-canonical', 'equal atoms, unequal Hill forms: %r and its %s re-rendering %r'
+                        % (h.structure, kind, gh.structure), renderings=['program', kind], multi_charge=False,
+                        equal_modulo_charge_order=False, flavour=flavour,
+                        equal_as_tuples=_deep_tuple(gh.structure) == _deep_tuple(h.structure))
+        # the Hill order written as a string with positional counts
+        keyed = [(c, akey(a)) for c, a in _leaves(h.structure)]
+        if flavour == 'float' and 'hill-order' not in problems and all(float(c) > 0 for c, _ in keyed):
+            text = ''.join(render(T, k, rng) + ('' if c == 1 and rng.random() < 0.9 else _positional(c)) for c, k in keyed)
+            ctx.evaluated(what='hill-string')
+            ctx.count('hill-string.float-counts')
+            try:
+                pf = formulas.formula(text, table=T)
+                ph = pf.hill
+            except HillContractBroken as exc:
+                problem('contract', 'hill of parsed %r: postcondition violated: %s' % (text, _contract_text(exc)))
+            else:
+                if not (pf == ph) or not (ph == pf):
+                    problem('hill-string', 'formula(%r) is written in Hill order but != its own .hill: %r vs %r'
+                            % (text, pf.structure, ph.structure), text=text, flavour=flavour,
+                            hill_structure_type=type(ph.structure).__name__,
+                            parsed_structure_type=type(pf.structure).__name__,
+                            equal_as_tuples=_deep_tuple(pf.structure) == _deep_tuple(ph.structure))
+                elif not (ph.atoms == pf.atoms):
+                    problem('hill-atoms', 'formula(%r): hill.atoms %r differs from atoms %r' % (text, ph.atoms, pf.atoms),
+                            flavour=flavour)
+        if len(fa) >= 2:
+            ctx.distinct_case(('counts', flavour, tuple(sorted(akey(a) for a in fa))))
+    for kind, (msg, detail) in problems.items():
+        _report(ctx, kind, msg, **detail)
+
+
+CHECKS = {'multiset': check_multiset, 'counts': check_counts}
 
 
 # ---------------------------------------------------------------- workload
@@ -566,14 +727,86 @@ class MultisetGen(object):
                 'features': sorted(feats), 'seed': rng.randrange(1 << 30)}
 
 
+HOSTILE_COUNTS = [2.5e-7, 1.6e-6, 4.9e-7, 5e-7, 1e-7, 1e-12, 0.1 + 0.2, 1 / 3, 2 / 3, 1.0000005, 0.9999995, 123456.7890125,
+                  3.3333335, 1e-6, 1.5e-6, 999999.9999995, 1e12 + 0.5, 0.0000014999, 7.00000049]
+
+
+class CountsGen(object):
+    """Number specs of one flavour: 'float' (python / numpy floats of every magnitude and up to 17 significant
+    digits, some integers), 'fraction' (Fractions and integers), 'decimal' (Decimals and integers)."""
+
+    def __init__(self, rng, flavour):
+        self.rng = rng
+        self.flavour = flavour
+
+    def _float(self, lo=-12, hi=12):
+        rng = self.rng
+        if rng.random() < 0.15:
+            return rng.choice(HOSTILE_COUNTS)
+        digits = rng.choice([1, 2, 3, 6, 7, 8, 10, 15, 17, 17])
+        m = round(rng.uniform(1, 10), digits - 1)
+        return float('%.*e' % (digits - 1, m * 10 ** rng.uniform(lo, hi)))
+
+    def number(self, rng=None):
+        import numpy as np
+        rng = self.rng
+        r = rng.random()
+        if r < 0.2:
+            return [rng.choice(['i', 'i', 'ni64']), rng.choice([1, 1, 2, 3, rng.randint(1, 50)])]
+        if self.flavour == 'fraction':
+            q = rng.choice([3, 7, 9, 11, 13, 10 ** rng.randint(6, 12), 10 ** rng.randint(1, 9) + 1, rng.randint(2, 10 ** 6)])
+            return ['frac', '%d/%d' % (rng.randint(1, 10 ** rng.randint(1, 9)), q)]
+        if self.flavour == 'decimal':
+            digits = rng.choice([1, 3, 7, 9, 12, 20])
+            mant = str(rng.randint(1, 9)) + ''.join(rng.choice('0123456789') for _ in range(digits - 1))
+            return ['dec', '%s.%sE%d' % (mant[0], mant[1:] or '0', rng.randint(-12, 6))]
+        v = self._float()
+        kind = rng.choice(['f', 'f', 'f', 'nf64', 'nf64', 'nf32'])
+        if kind == 'nf32':
+            v = float(np.float32(v))
+        return [kind, v]
+
+    def multiplier(self, rng=None):
+        spec = self.number()
+        if spec[0] in ('f', 'nf64', 'nf32') and not (1e-9 < spec[1] < 1e9):
+            spec = ['f', self._float(-7, 3)]
+        return spec
+
+    def string_count(self, allow_one=True, p_one=0.35):
+        rng = self.rng
+        if allow_one and rng.random() < p_one:
+            return '', Fraction(1)
+        if self.flavour == 'decimal' or rng.random() < 0.3:
+            n = rng.randint(2, 40)
+            return str(n), Fraction(n)
+        text = _positional(self._float())
+        return text, Fraction(text)
+
+
+def counts_case(rng, T, tname):
+    from ..gen.programs import ProgramGen, dumps
+    flavour = rng.choice(['float', 'float', 'float', 'float', 'fraction', 'decimal'])
+    cg = CountsGen(rng, flavour)
+    pg = ProgramGen(T, rng, positive=True, leaf_count=cg.number, multiplier=cg.multiplier, names=False,
+                    p_dt=0.1, string_counts=cg.string_count)
+    pg.fgen.p_dt = 0.1
+    prog = pg.program(rng.choice([1, 1, 2, 3, 4, 6]))
+    return {'flavour': flavour, 'prog': dumps(prog), 'table': tname, 'seed': rng.randrange(1 << 30)}
+
+
 def generate(ctx):
     rng = ctx.rng
     gens = dict((t, MultisetGen(T, rng)) for t, T in _s['tables'].items())
-    for _ in range(ctx.scale(500, 12000)):
+    ncounts = ctx.scale(170, 4000)
+    every = max(1, ctx.scale(500, 12000) // ncounts)
+    for i in range(ctx.scale(500, 12000)):
         tname = 'private' if rng.random() < 0.1 else 'public'
         case = gens[tname].case(multi=rng.random() < 0.10, zero=rng.random() < 0.06)
         case['table'] = tname
         yield 'multiset', case
+        if i % every == 0:
+            tname = 'private' if rng.random() < 0.1 else 'public'
+            yield 'counts', counts_case(rng, _s['tables'][tname], tname)
 
 
 def classify(rec):
